@@ -80,10 +80,15 @@ Fixpoint congruence_from (prev : option row) (l : list row) : list bool :=
 Definition congruence (rows : list row) : list bool := congruence_from None rows.
 Definition is_congruent (rows : list row) : bool := forallb (fun b => b) (congruence rows).
 
-(** * splines: per chromosome the (physical, genetic) knots, in map order (sorted) *)
+(** * splines (build_spline): per chromosome the (physical, genetic) knots selected by the mask chrgrp == grp, in array
+      order; interp1d(assume_sorted = False) then sorts them by x with a stable sort (argsort, kind = "mergesort") *)
 Definition knots (rows : list row) (c : Z) : list (Z * Q) :=
   map (fun r => (r_phy r, r_gen r)) (filter (fun r => r_chr r =? c) rows).
 Definition has_chr (rows : list row) (c : Z) : bool := existsb (fun r => r_chr r =? c) rows.
+Fixpoint insert_knot (p : Z * Q) (l : list (Z * Q)) : list (Z * Q) :=
+  match l with [] => [p] | q :: t => if fst p <=? fst q then p :: q :: t else q :: insert_knot p t end.
+Definition sort_knots (l : list (Z * Q)) : list (Z * Q) := fold_right insert_knot [] l.
+Definition spline_knots (rows : list row) (c : Z) : list (Z * Q) := sort_knots (knots rows c).
 
 (** numpy.searchsorted(x, v) (side = left) on a sorted array: number of entries < v *)
 Definition searchsorted (xs : list Z) (x : Z) : nat := length (filter (fun xi => xi <? x) xs).
@@ -100,7 +105,7 @@ Definition interp1 (pts : list (Z * Q)) (x : Z) : Q :=
 
 (** interp_genpos: NaN for a chromosome without a spline (KeyError branch) *)
 Definition interp_pos (rows : list row) (cx : Z * Z) : ext :=
-  let '(c, x) := cx in if has_chr rows c then Fin (interp1 (knots rows c) x) else NaN.
+  let '(c, x) := cx in if has_chr rows c then Fin (interp1 (spline_knots rows c) x) else NaN.
 Definition interp_genpos (rows : list row) (query : list (Z * Z)) : list ext := map (interp_pos rows) query.
 
 (** a map's own markers as a query, and its stored positions *)
@@ -182,6 +187,9 @@ Definition stored_gen_f (cM : bool) (x : float) : float := if cM then cM2d_f x e
 Record frow := mkFRow { f_chr : Z; f_phy : Z; f_gen : float }.
 Definition fknots (rows : list frow) (c : Z) : list (Z * float) :=
   map (fun r => (f_phy r, f_gen r)) (filter (fun r => f_chr r =? c) rows).
+Fixpoint insert_fknot (p : Z * float) (l : list (Z * float)) : list (Z * float) :=
+  match l with [] => [p] | q :: t => if fst p <=? fst q then p :: q :: t else q :: insert_fknot p t end.
+Definition sort_fknots (l : list (Z * float)) : list (Z * float) := fold_right insert_fknot [] l.
 Definition interp1_f (pts : list (Z * float)) (x : Z) : float :=
   let hi := clipn 1 (length pts - 1) (searchsorted (map fst pts) x) in
   let lo := (hi - 1)%nat in
@@ -189,7 +197,7 @@ Definition interp1_f (pts : list (Z * float)) (x : Z) : float :=
   let '(xh, yh) := nth hi pts (0, 0%float) in
   PrimFloat.add (PrimFloat.mul (fdivZ (x - xl) (xh - xl)) yh) (PrimFloat.mul (fdivZ (xh - x) (xh - xl)) yl).
 Definition interp_pos_f (rows : list frow) (cx : Z * Z) : float :=
-  let '(c, x) := cx in if existsb (fun r => f_chr r =? c) rows then interp1_f (fknots rows c) x else PrimFloat.nan.
+  let '(c, x) := cx in if existsb (fun r => f_chr r =? c) rows then interp1_f (sort_fknots (fknots rows c)) x else PrimFloat.nan.
 Definition interp_genpos_f (rows : list frow) (query : list (Z * Z)) : list float := map (interp_pos_f rows) query.
 Fixpoint gdist1g_from_f (prev : option (Z * float)) (chrs : list Z) (gens : list float) : list float :=
   match chrs, gens with
